@@ -11,7 +11,8 @@ BOUND = ("networks with <= 6 variables (exhaustive 1-variable, sampled 2-variabl
          "block without source shortcuts, single-node expansion) with random size/level/stack limits in 0..8 and random start nodes; all structural "
          "invariants re-checked against the brute-force lattice after every call; then unrestricted bfs or dfs compared with a fresh full expansion; plus networks with "
          "diagrams of depth >= 2 (unions of bistable modules, nested switches, latch DAGs) under 'partial expansion, then a shallower level-limited bfs' and depth-first "
-         "histories")
+         "histories; a quarter of the seeded cases and the cases on networks with 4-6 stable motifs at the root run under max_motifs_per_node in 1..6 (a call that "
+         "hits the limit raises and must leave the node unexpanded; the final comparison then runs with the limit lifted)")
 RULE = "non-trivial = the reference diagram has >= 3 nodes and at least one step left the diagram partially expanded (a stub existed after it)"
 CASE_TIMEOUT = 60.0
 
@@ -28,6 +29,10 @@ def shape_cases(seed, tier):
             picks = [fixed[k % len(fixed)][0] + [fixed[k % len(fixed)][1]], pre + [final], rng.choice(families.depth_first_histories(rng)[1:])]
         for h in picks:
             yield {"net": name, "bnet": bnet, "history": h, "finish": "dfs" if k % 2 else "bfs"}
+        if name in families.DEEP or k % 5 == 0:
+            for lim in ((1, 2, 3, 4, 5, 6) if name in families.DEEP else (rng.randint(1, 4),)):
+                h = rng.choice([[["bfs", None, None, None]], [["dfs", None, None, None]], [["succ", 0], ["bfs", None, None, None]], [["min", None, None, False]]])
+                yield {"net": name, "bnet": bnet, "config": {"max_motifs_per_node": lim}, "history": h, "finish": "bfs"}
 
 
 def cases(seed, tier):
@@ -41,7 +46,10 @@ def general_cases(seed, tier):
         for rnd in range(3 if tier == "quick" else 6):
             rng = random.Random(f"{seed}-{rnd}-{name}-c04")
             hist = families.random_history(rng.randrange(1 << 30), names, rng.randint(1, maxlen), families.PLAIN_OPS)
-            yield {"net": name, "bnet": bnet, "history": hist, "finish": rng.choice(["bfs", "dfs"])}
+            case = {"net": name, "bnet": bnet, "history": hist, "finish": rng.choice(["bfs", "dfs"])}
+            if rnd == 2 and rng.random() < 0.75:
+                case["config"] = {"max_motifs_per_node": rng.randint(1, 4)}
+            yield case
 
 
 def signature(sd):
@@ -55,7 +63,7 @@ def check_with_info(case):
     info = net_info(net)
     info["ref_nodes"] = len(net.full_sd()[1])
     info["partial_moments"] = 0
-    sd = make_sd(case["bnet"])
+    sd = make_sd(case["bnet"], case.get("config"))
     out = check_structure(sd, net, plain=True)
     for k, step in enumerate(case["history"]):
         sd, r = run_step(sd, step)
@@ -66,6 +74,8 @@ def check_with_info(case):
             out.append(f)
         if out:
             return out, info
+    if case.get("config"):
+        sd.config["max_motifs_per_node"] = 100_000  # the limit is lifted for the final full expansion
     fin = ["bfs", None, None, None] if case["finish"] == "bfs" else ["dfs", None, None, None]
     sd, r = run_step(sd, fin)
     if r is not True:
